@@ -1,5 +1,6 @@
 import Std.Data.String.ToNat
 import PySMT.Proofs.C11Cnf
+import PySMT.Impl.Rewritings.PolCNF
 import PySMT.Impl.Rewritings.Ackermann
 /-!
 # C11 — the fresh-symbol supply (`FormulaManager.new_fresh_symbol`, `formula.py:119-128`)
@@ -167,28 +168,90 @@ theorem mem_postorder : (t : Term) → ∀ h, h ∈ postorder t ↔ h ∈ t.subt
 theorem mem_keyOrder (t h : Term) : h ∈ keyOrder t ↔ h ∈ t.subterms ∧ wantsKey h = true := by
   simp only [keyOrder, mem_dedup, List.mem_filter, mem_postorder]
 
-/-- **Freshness of the definition variables** (model of `new_fresh_symbol`): on the sub-formulas that
-receive a definition variable `key` has the left inverse `unkey`, and no symbol of the input is a
-definition variable. -/
+/-- a symbol found by `unkey` is paired with its term in the table -/
+theorem unkey_mem {tbl : List (Term × Sym)} {k : Sym} {g : Term} (h : unkey tbl k = some g) : (g, k) ∈ tbl := by
+  simp only [unkey, Option.map_eq_some_iff] at h
+  obtain ⟨e, he, rfl⟩ := h
+  have h1 := List.mem_of_find?_eq_some he
+  have h2 : e.2 = k := by simpa using List.find?_some he
+  rw [← h2]; exact h1
+
+theorem assignKeys_bool (base : Nat → String) : ∀ (gs : List Term) (s : Supply), ∀ e ∈ assignKeys base s gs,
+    e.2.params = [] ∧ e.2.ret = .bool
+  | [], _, e, he => by cases he
+  | g :: gs, s, e, he => by
+    simp only [assignKeys, List.mem_cons] at he
+    rcases he with rfl | he
+    · exact ⟨rfl, rfl⟩
+    · exact assignKeys_bool base gs _ e he
+
+/-- on a table with distinct terms, the symbol paired with a term is the one `lookupKey` finds -/
+theorem lookupKey_of_mem : ∀ (tbl : List (Term × Sym)), (tbl.map (·.1)).Nodup → ∀ g k, (g, k) ∈ tbl →
+    lookupKey tbl g = k
+  | [], _, g, k, h => by cases h
+  | (g0, k0) :: rest, hnd, g, k, h => by
+    simp only [List.map_cons, List.nodup_cons] at hnd
+    rcases List.mem_cons.mp h with e | h
+    · cases e; simp [lookupKey, List.find?]
+    · have hne : (g0 == g) = false := by
+        simp only [beq_eq_false_iff_ne, ne_eq]
+        rintro rfl
+        exact hnd.1 (List.mem_map.mpr ⟨(g0, k), h, rfl⟩)
+      have := lookupKey_of_mem rest hnd.2 g k h
+      simpa [lookupKey, List.find?, hne] using this
+
+/-- **Freshness of the definition variables** (model of `new_fresh_symbol`), for a manager in ANY state
+`s` that knows the symbols of the input: on the nodes `gs` that receive a definition variable `key` has the left
+inverse `unkey`, no symbol of the input is a definition variable, every definition variable is a Boolean
+constant symbol. -/
+theorem assignKeys_spec (s : Supply) (t : Term) (hs : ∀ x ∈ t.fv, x.name ∈ s.used) (gs : List Term)
+    (hnd : gs.Nodup) :
+    (∀ h ∈ gs, unkey (assignKeys fvName s gs) (lookupKey (assignKeys fvName s gs) h) = some h) ∧
+    (∀ x ∈ t.fv, unkey (assignKeys fvName s gs) x = none) ∧
+    (∀ k g, unkey (assignKeys fvName s gs) k = some g → k.params = [] ∧ k.ret = .bool) := by
+  have hok := assignKeys_ok fvName fvName_inj gs s
+  have hfst := assignKeys_fst fvName gs s
+  refine ⟨?_, ?_, ?_⟩
+  · intro h hh
+    apply unkey_lookupKey _ hok
+    · rw [hfst]; exact hnd
+    · rw [hfst]; exact hh
+  · intro x hx
+    exact unkey_none_of_used _ hok x (hs x hx)
+  · intro k g hkg
+    exact assignKeys_bool fvName gs s _ (unkey_mem hkg)
+
+theorem keyTableIn_spec (s : Supply) (t : Term) (hs : ∀ x ∈ t.fv, x.name ∈ s.used) :
+    (∀ h ∈ t.subterms, wantsKey h = true →
+        unkey (keyTableIn s t) (lookupKey (keyTableIn s t) h) = some h) ∧
+    (∀ x ∈ t.fv, unkey (keyTableIn s t) x = none) ∧
+    (∀ k g, unkey (keyTableIn s t) k = some g → k.params = [] ∧ k.ret = .bool) := by
+  have := assignKeys_spec s t hs (keyOrder t) (nodup_dedup _)
+  exact ⟨fun h hh hw => this.1 h ((mem_keyOrder t h).mpr ⟨hh, hw⟩), this.2.1, this.2.2⟩
+
 theorem keyTable_spec (t : Term) :
     (∀ h ∈ t.subterms, wantsKey h = true →
         unkey (keyTable t) (lookupKey (keyTable t) h) = some h) ∧
     (∀ s ∈ t.fv, unkey (keyTable t) s = none) := by
-  have hok := assignKeys_ok fvName fvName_inj (keyOrder t) ⟨t.fv.map (·.name), 0⟩
-  have hfst := assignKeys_fst fvName (keyOrder t) ⟨t.fv.map (·.name), 0⟩
-  constructor
-  · intro h hh hw
-    apply unkey_lookupKey _ hok
-    · rw [hfst]; exact nodup_dedup _
-    · rw [hfst]; exact (mem_keyOrder t h).mpr ⟨hh, hw⟩
-  · intro s hs
-    exact unkey_none_of_used _ hok s (List.mem_map.mpr ⟨s, hs, rfl⟩)
+  have := keyTableIn_spec ⟨t.fv.map (·.name), 0⟩ t (fun x hx => List.mem_map.mpr ⟨x, hx, rfl⟩)
+  exact ⟨this.1, this.2.1⟩
 
 theorem keyTable_fresh (t : Term) : ∀ h ∈ t.subterms, wantsKey h = true → lookupKey (keyTable t) h ∉ t.fv := by
   intro h hh hw hmem
   have := (keyTable_spec t).1 h hh hw
   rw [(keyTable_spec t).2 _ hmem] at this
   cases this
+
+/-- the same for the supply of a `PolarityCNFizer` run: only the Boolean skeleton receives variables -/
+theorem polKeyTableIn_spec (s : Supply) (t : Term) (hs : ∀ x ∈ t.fv, x.name ∈ s.used) :
+    (∀ h ∈ boolNodes t, wantsKey h = true →
+        unkey (PolCNF.keyTableIn s t) (lookupKey (PolCNF.keyTableIn s t) h) = some h) ∧
+    (∀ x ∈ t.fv, unkey (PolCNF.keyTableIn s t) x = none) ∧
+    (∀ k g, unkey (PolCNF.keyTableIn s t) k = some g → k.params = [] ∧ k.ret = .bool) := by
+  have := assignKeys_spec s t hs (PolCNF.keyOrder t) (nodup_dedup _)
+  refine ⟨fun h hh hw => this.1 h ?_, this.2.1, this.2.2⟩
+  simp only [PolCNF.keyOrder, mem_dedup, List.mem_filter]
+  exact ⟨hh, hw⟩
 
 end PySMT.CNF
 
@@ -226,35 +289,49 @@ theorem assignConsts_typed : ∀ (gs : List Term) (s : Supply), ∀ e ∈ assign
     · exact ⟨rfl, rfl⟩
     · exact assignConsts_typed gs _ e he
 
-/-- **Freshness and sorts of the Ackermann constants** -/
+/-- **Freshness and sorts of the Ackermann constants**, for a manager in any state `s` that knows the symbols
+of the input -/
+theorem constTableIn_spec (s : Supply) (t : Term) (hs : ∀ x ∈ t.fv, x.name ∈ s.used) :
+    (∀ a ∈ apps t, unkey (constTableIn s t) (lookupKey (constTableIn s t) a) = some a) ∧
+    (∀ x ∈ t.fv, unkey (constTableIn s t) x = none) ∧
+    (∀ a ∈ apps t, (lookupKey (constTableIn s t) a).params = [] ∧ (lookupKey (constTableIn s t) a).ret = retTy a) ∧
+    (∀ k a, unkey (constTableIn s t) k = some a → a ∈ apps t ∧ lookupKey (constTableIn s t) a = k) := by
+  have hok := assignConsts_ok (appsD t) s
+  have hfst := assignConsts_fst (appsD t) s
+  have hnd : ((constTableIn s t).map (·.1)).Nodup := by
+    show ((assignConsts s (appsD t)).map (·.1)).Nodup
+    rw [hfst]; exact nodup_dedup _
+  have hrange : ∀ k a, unkey (constTableIn s t) k = some a → a ∈ apps t ∧ lookupKey (constTableIn s t) a = k := by
+    intro k a hka
+    have hm := unkey_mem hka
+    refine ⟨?_, lookupKey_of_mem _ hnd a k hm⟩
+    have : a ∈ (constTableIn s t).map (·.1) := List.mem_map.mpr ⟨(a, k), hm, rfl⟩
+    have h2 : a ∈ appsD t := by
+      have e : (constTableIn s t).map (·.1) = appsD t := hfst
+      rw [e] at this; exact this
+    exact (mem_dedup _ _).mp h2
+  refine ⟨?_, ?_, ?_, hrange⟩
+  · intro a ha
+    apply unkey_lookupKey _ hok hnd
+    show a ∈ (assignConsts s (appsD t)).map (·.1)
+    rw [hfst]; exact (mem_dedup _ _).mpr ha
+  · intro x hx
+    exact unkey_none_of_used _ hok x (hs x hx)
+  · intro a ha
+    have hmem : a ∈ (constTableIn s t).map (·.1) := by
+      show a ∈ (assignConsts s (appsD t)).map (·.1)
+      rw [hfst]; exact (mem_dedup _ _).mpr ha
+    obtain ⟨e, he, hea⟩ := List.mem_map.mp hmem
+    have hl := lookupKey_of_mem _ hnd e.1 e.2 he
+    have := assignConsts_typed _ _ e he
+    rw [← hea, hl]
+    exact this
+
 theorem constTable_spec (t : Term) :
     (∀ a ∈ apps t, unkey (constTable t) (lookupKey (constTable t) a) = some a) ∧
     (∀ s ∈ t.fv, unkey (constTable t) s = none) ∧
     (∀ a ∈ apps t, (lookupKey (constTable t) a).params = [] ∧ (lookupKey (constTable t) a).ret = retTy a) := by
-  have hok := assignConsts_ok (appsD t) ⟨t.fv.map (·.name), 0⟩
-  have hfst := assignConsts_fst (appsD t) ⟨t.fv.map (·.name), 0⟩
-  refine ⟨?_, ?_, ?_⟩
-  · intro a ha
-    apply unkey_lookupKey _ hok
-    · rw [hfst]; exact nodup_dedup _
-    · rw [hfst]; exact (mem_dedup _ _).mpr ha
-  · intro s hs
-    exact unkey_none_of_used _ hok s (List.mem_map.mpr ⟨s, hs, rfl⟩)
-  · intro a ha
-    have hmem : a ∈ (constTable t).map (·.1) := by
-      show a ∈ (assignConsts ⟨t.fv.map (·.name), 0⟩ (appsD t)).map (·.1)
-      rw [hfst]; exact (mem_dedup _ _).mpr ha
-    obtain ⟨e, he, hea⟩ := List.mem_map.mp hmem
-    simp only [lookupKey]
-    cases hf : (constTable t).find? (fun e => e.1 == a) with
-    | none =>
-      have := List.find?_eq_none.mp hf e he
-      simp [hea] at this
-    | some e' =>
-      have h1 := List.mem_of_find?_eq_some hf
-      have h2 : e'.1 = a := by simpa using List.find?_some hf
-      have := assignConsts_typed _ _ e' h1
-      rw [h2] at this
-      exact this
+  have := constTableIn_spec ⟨t.fv.map (·.name), 0⟩ t (fun x hx => List.mem_map.mpr ⟨x, hx, rfl⟩)
+  exact ⟨this.1, this.2.1, this.2.2.1⟩
 
 end PySMT.Ackermann
